@@ -29,7 +29,7 @@ REQUIRED = ["contract:CVR.make_phantoms", "accounting_checked:style", "accountin
             "phantom_cvr_pairs", "phantom_cvr_with_votes_pairs", "second_call_on_same_input_list", "shortfalls_all_different",
             "pool_means_with_phantoms_checked", "pool_means_with_phantoms_checked:assorter_bound_not_1",
             "audit_wide_max_cards_differs_from_stratum_bound", "phantom_mvrs_for_sampled_phantom_cards_checked",
-            "phantom_mvrs_for_sampled_phantom_cards_checked:another_prefix", "assorter:plurality", "assorter:supermajority", "assorter:irv"]
+            "phantom_mvrs_for_sampled_phantom_cards_checked:another_prefix", "contest_with_card_bound_zero", "assorter:plurality", "assorter:supermajority", "assorter:irv"]
 ASSUMPTIONS = ["card bounds >= number of CVRs listing the contest; input lists contain no phantoms",
                "a phantom labelled pooled inside a pooled batch is scored with that batch's mean by design (C03 depends "
                "on it): the 1/2 clause is asserted for unpooled phantom CVRs"]
@@ -168,7 +168,16 @@ def run_case(es, rec):
         if sim.use_style:
             for con in sim.contests.values():
                 con.cards = con.cards + 2
-        ok, again = rec.guard("c08.call:make_phantoms:second_call", CVR.make_phantoms, audit=sim.audit, contests=sim.contests,
+        contests2 = dict(sim.contests)
+        if sim.use_style and len(es["cards"]) % 3 == 0:
+            # a contest of the jurisdiction that is on none of this stratum's cards: its bound here is 0 (a bound, not
+            # "unspecified"), so no record may list it
+            ghost = copy.copy(next(iter(sim.contests.values())))
+            ghost.id = ghost.name = "contest-not-in-this-stratum"
+            ghost.cards = 0
+            contests2[ghost.id] = ghost
+            rec.count("contest_with_card_bound_zero")
+        ok, again = rec.guard("c08.call:make_phantoms:second_call", CVR.make_phantoms, audit=sim.audit, contests=contests2,
                               cvr_list=sim.real_list, prefix=es.get("phantom_prefix", "phantom-1-"), tally_pool=tp, pool=pool)
         if not ok:
             return
